@@ -136,7 +136,7 @@ def _const(mod, name):
 # ---------------------------------------------------------------------------------------------
 
 
-def expected_sql(E, frag, ru):
+def expected_sql(E, frag, ru, dir_range):
     SS, FS, ND = E.StepState, E.FileState, E.Need
     ok = f"({SS.RUNNING.value}, {SS.SUCCEEDED.value})"
     ro = frag["REGULAR_OUTPUT_WHERE"]
@@ -181,7 +181,7 @@ def expected_sql(E, frag, ru):
         "WITH cte AS (SELECT check_after.i AS i, step._implied_need AS old_implied_need, "
         "MAX(step.need, CASE WHEN EXISTS (" + outq + " AND onode.label IN (SELECT path FROM target_path)) "
         f"THEN {ND.TARGET.value} WHEN step.need = {ND.DEFAULT.value} AND EXISTS (" + outq
-        + " AND EXISTS (SELECT 1 FROM target_dir WHERE onode.label >= target_dir.path AND onode.label < target_dir.upper)) "
+        + " AND EXISTS (SELECT 1 FROM target_dir WHERE " + dir_range + ")) "
         f"THEN {ND.TARGET.value} ELSE {ND.OPTIONAL.value} END, "
         f"COALESCE(MAX(sink_step._implied_need), {ND.OPTIONAL.value})) AS new_implied_need, "
         "step._tail_time AS old_tail_time, "
@@ -396,6 +396,28 @@ def parse_reconcile_targets(E) -> tuple[bool, bool, bool]:
         else:
             raise TranslatorError(f"reconcile_targets: statement not recognised: {text.splitlines()[0]!r}")
     return stale, exact, dirs
+
+
+# ---------------------------------------------------------------------------------------------
+# UPDATE_CHECK_AFTER: the label range of a directory target is translated (two comparison operators)
+# ---------------------------------------------------------------------------------------------
+
+DIR_RANGE_RE = re.compile(r"AND EXISTS \(SELECT 1 FROM target_dir WHERE (.*?)\)\) THEN ")
+_CMP = {">=": "CGe", ">": "CGt", "<": "CLt", "<=": "CLe"}
+
+
+def parse_dir_range(text: str) -> tuple[str, tuple[str, str]]:
+    """(range text as written, (operator against target_dir.path, operator against target_dir.upper))."""
+    m = DIR_RANGE_RE.search(text)
+    if not m:
+        raise TranslatorError("UPDATE_CHECK_AFTER: directory-target range not found")
+    rng = m.group(1)
+    if rng == "onode.label BETWEEN target_dir.path AND target_dir.upper":
+        return rng, ("CGe", "CLe")
+    m2 = re.fullmatch(r"onode\.label (>=|>) target_dir\.path AND onode\.label (<=|<) target_dir\.upper", rng)
+    if not m2:
+        raise TranslatorError(f"UPDATE_CHECK_AFTER: directory-target range not recognised: {rng!r}")
+    return rng, (_CMP[m2.group(1)], _CMP[m2.group(2)])
 
 
 # ---------------------------------------------------------------------------------------------
@@ -690,7 +712,9 @@ def generate():
     ru_text = norm_sql(_const(SC, "RESOURCE_UNAVAILABLE"))
     ru_atoms = parse_resource_unavailable(ru_text, SS.RUNNING.value)
     facts["resource_usage_where"] = ru_atoms
-    exp = expected_sql(E, frag, ru_text)
+    dir_range, dir_ops = parse_dir_range(norm_sql(_const(SC, "UPDATE_CHECK_AFTER")))
+    facts["after_dir_range"] = list(dir_ops)
+    exp = expected_sql(E, frag, ru_text, dir_range)
     actual = {
         "APPLY_SAFE_UPDATE": _const(SC, "APPLY_SAFE_UPDATE"), "SEED_CHECK_AFTER": _const(SC, "SEED_CHECK_AFTER"),
         "UPDATE_CHECK_AFTER": _const(SC, "UPDATE_CHECK_AFTER"),
@@ -805,6 +829,9 @@ def generate():
     o.append(f"Definition after_dir_guard_need : N := {ND.DEFAULT.value}.")
     o.append(f"Definition after_elev_none : N := {ND.OPTIONAL.value}.")
     o.append(f"Definition after_sink_default : N := {ND.OPTIONAL.value}.")
+    o.append("(* the label range of a directory target: label <op> target_dir.path AND label <op> target_dir.upper *)")
+    o.append(f"Definition after_dir_lower : cmpop := {dir_ops[0]}.")
+    o.append(f"Definition after_dir_upper : cmpop := {dir_ops[1]}.")
     o.append("(* scheduler.SELECT_NEXT_STEP / RESOURCE_UNAVAILABLE / _get_next_step *)")
     o.append(f"Definition resource_running_state : N := {SS.RUNNING.value}.")
     o.append("(* scheduler.RESOURCE_UNAVAILABLE: which steps' units are subtracted from the available ones *)")
